@@ -34,7 +34,7 @@ def star_names(module, level):
 class Dyn(object):
     """dynref facts about one program."""
 
-    def __init__(self, prog, mode, cap, keep_traces=False):
+    def __init__(self, prog, mode, cap, keep_traces=False, lenient=False):
         setup_paths()
         self.src = prog['src']
         self.package = bool(prog.get('package'))
@@ -43,6 +43,7 @@ class Dyn(object):
         self.program = dynref.Program(self.src, self.filename, package='fx_pkg' if self.package else None,
                                       modname='fx_pkg.gen_prog' if self.package else 'gen_prog', star_names=star_names)
         self.ins = self.program.ins
+        self.program.lenient = lenient
         self.res = self.program.explore(mode, cap, keep_traces)
         self.exhaustive = self.res['exhaustive']
 
